@@ -1,5 +1,6 @@
 mod c06;
 mod c07;
+mod c08;
 mod c15;
 mod c19;
 mod c20;
@@ -26,6 +27,7 @@ fn with_campaign(prop: &str, f: &mut dyn FnMut(&dyn Dispatch) -> i32) -> i32 {
     match prop {
         "C06" => f(&c06::C06),
         "C07" => f(&c07::C07),
+        "C08" => f(&c08::C08),
         "C15" => f(&c15::C15),
         "C19" => f(&c19::C19),
         "C20" => f(&c20::C20),
@@ -120,6 +122,10 @@ fn main() {
             } else {
                 1
             }
+        }
+        "c08-record" => {
+            println!("{}", serde_json::to_string_pretty(&c08::record()).unwrap());
+            0
         }
         "show" => {
             // print the scenario generated for one run index
